@@ -637,7 +637,7 @@ class C18(Family):
     # source-text tie (DESIGN 10.3): Generated/ProcessResponse.lean is rewritten from /repo's
     # control/timeresp.py:_process_time_response and control/lti.py:_process_frequency_response on
     # every run and proved equal to the models processTime / processFreq
-    extra_modules = ["CtrlVerif.Props.C18Gen"]
+    extra_modules = ["CtrlVerif.Props.C18Gen", "CtrlVerif.Props.C18Perm"]
 
     def pre_build(self):
         import os
@@ -1765,4 +1765,5 @@ class C18(Family):
         return []
 
 
-FAMILY = C18
+from families import c18_routes                  # routes stream (tag C18-perm)
+FAMILY = c18_routes.extend(C18)
